@@ -26,6 +26,15 @@ Section Falcon.
   Definition sarsa_targets (alpha lambda : N) (Q : list N) (rewards_cc : list (list N)) : list (list N) :=
     map cc (sarsa alpha lambda Q (map decc rewards_cc)).
 
+  (* calculate_SARSA as a whole: an episode of one step (or none) is trained on its own reward row, or on the
+     complement-coded single_sample_reward when one is given; (rows kept, targets) *)
+  Definition calc_sarsa (alpha lambda : N) (Q : list N) (rewards_cc : list (list N)) (single : option N)
+    : nat * list (list N) :=
+    match rewards_cc with
+    | _ :: _ :: _ => (pred (length rewards_cc), sarsa_targets alpha lambda Q rewards_cc)
+    | _ => (length rewards_cc, match single with None => rewards_cc | Some r => [cc r] end)
+    end.
+
   (* get_action: the member of the action space whose predicted reward is maximal
      (minimal on request), first on ties *)
   Definition argmin (leb : N -> N -> bool) (T : list N) : option nat := argmax (fun a b => leb b a) T.
